@@ -25,6 +25,16 @@ from harness import lib_c05 as L
 FINDINGS_DIR = core.VERIF / "findings"
 
 
+def _trace(obj):
+    """C05_TRACE=<file>: write every value-propagation case before it runs (to find a native crash)"""
+    import os
+
+    path = os.environ.get("C05_TRACE")
+    if path:
+        with open(path, "w") as f:
+            f.write(json.dumps(obj, default=str))
+
+
 MAX_BROKEN = 40
 _suppressed = [0]
 
@@ -425,6 +435,12 @@ def _correspond_case(ck, op, call, sp, ans, stats):
                     d.append(f"model: returns {json.dumps(exp)[:200]}; real raised {sp['raised']}: {sp.get('msg', '')[:120]}")
                 else:
                     _cmp("output Var types", [[k, t] for k, t in zip(out_keys(cls, call), sp["types"])], exp, d)
+    # value propagation: types as `construct`, a value only on a typed output
+    if "vp" in ans and ans["vp"] != "error" and sp["raised"] is None and sp.get("has_value") is not None and not patched:
+        stats["value_prop_compared"] += 1
+        _cmp("output Var (type, has value) under value propagation",
+             [[k, t, hv] for k, t, hv in zip(out_keys(cls, call), sp["types"], sp["has_value"])],
+             [[k, t, v is not None] for k, t, v in ans["vp"]], d)
     # the oracle's hand-built model is the model's `handModel`
     if not ans["untyped"] and not call.get("sub"):
         try:
@@ -712,7 +728,16 @@ def run(ck: core.Check):
                 continue
             fstats["flows"] += 1
             fstats["kind:" + flow["kind"]] += 1
-            for i, op, key, what, info, call, sp in judge_flow(by_key, flow, known):
+            _trace({"flow": flow})
+            if flow["calls"][0].get("vp") == "onnxruntime":
+                got = L.isolated(lambda: judge_flow(by_key, flow, known))
+                if got is None or got[0] != "ok":
+                    fstats["onnxruntime_child_died" if got is None else "onnxruntime_child_error"] += 1
+                    continue
+                judged = got[1]
+            else:
+                judged = judge_flow(by_key, flow, known)
+            for i, op, key, what, info, call, sp in judged:
                 fstats["calls"] += 1
                 fstats[info["class"]] += 1
                 ck.count(("flow", op.key, info["class"], i, flow["kind"]))
@@ -741,6 +766,66 @@ def run(ck: core.Check):
             correspond_case(ck, op_, call, sp, ans, stats)
     ck.log(f"{fstats['flows']} cross-operator flows, {fstats['calls']} calls")
     ck.cov["flows"] = dict(fstats)
+
+    # 1c. every operand a known constant, value propagation ON (library default / reference / onnxruntime)
+    DATA_DEP = {"NonZero", "Unique", "Compress", "Where", "Reshape", "Expand", "Tile", "Range", "ConstantOfShape",
+                "Slice", "TopK", "Gather", "Pad", "Resize", "OneHot", "Squeeze", "Unsqueeze", "Split", "Trilu",
+                "Shape", "Size", "Concat", "Flatten", "MaxPool", "Upsample", "GatherND", "DepthToSpace"}
+    cwork = []
+    for op in ops:
+        if op.shared_with or op.name in L.BODY_OPS:
+            continue
+        cwork += [op] * (ck.pick(30, 300) if op.name in DATA_DEP else ck.pick(4, 50))
+    rng.shuffle(cwork)
+    cstats = collections.Counter()
+    reqs, pending = [], []
+
+    def flush():
+        if reqs:
+            for (op_, call, sp), ans in zip(pending, ck.driver().ask_many("C05", reqs)):
+                correspond_case(ck, op_, call, sp, ans, stats)
+            reqs.clear()
+            pending.clear()
+
+    for op in cwork:
+        try:
+            call = L.gen_call(rng, op, force="constfed")
+            if "skip" in call:
+                continue
+            _trace({"op_key": op.key, "call": call})
+            if call.get("vp") == "onnxruntime":
+                if L.oracle_run(op, call)["reject"]:
+                    call["vp"] = "reference"  # onnxruntime is only handed nodes ONNX accepts ...
+            if call.get("vp") == "onnxruntime":
+                got = L.isolated(lambda: (lambda sp_: (sp_, judge(op, call, sp_)))(L.run_spox(op, call)))  # ... in a child
+                if got is None or got[0] != "ok":
+                    cstats["onnxruntime_child_died" if got is None else "onnxruntime_child_error"] += 1
+                    continue
+                sp, (key, what, info) = got[1]
+            else:
+                sp = L.run_spox(op, call)
+                key, what, info = judge(op, call, sp)
+            cstats[call["family"] + ":" + call.get("vp", "none")] += 1
+            cstats[info["class"]] += 1
+            per_op[op.key]["vp:" + info["class"]] += 1
+            ck.count(("constfed", op.key, info["class"], call.get("vp")))
+            if key is not None:
+                if key in known:
+                    ck.failure(key, what, {"op_key": op.key, "call": call})
+                elif not any(f["key"] == key for f in ck.failures):
+                    register(ck, op, key, what, call, [])
+            req = L.model_request(op, call, sp)
+            if req is not None:
+                reqs.append(req)
+                pending.append((op, call, sp))
+        except Exception as e:  # noqa: BLE001
+            stats["case_errors"] += 1
+            brk(ck, "harness", "a constant-fed call could not be run", f"e.g. {op.key}: {type(e).__name__}: {e}"[:300])
+        if len(reqs) >= 3000:
+            flush()
+    flush()
+    ck.log(f"{len(cwork)} constant-fed calls with value propagation on")
+    ck.cov["constant_fed_value_prop_on"] = dict(cstats)
 
     # 1. generated calls
     work = []
@@ -793,6 +878,7 @@ def run(ck: core.Check):
     ck.assumptions += [
         "onnx.shape_inference.infer_shapes is invariant under injective renaming of value names and ignores graph inputs / initializers the node does not read (hypotheses InferOK of eager_agrees; observed by the oracle, which uses its own names and no extra inputs)",
         "an attribute left at its default denotes the same node whether omitted or written with the schema default (the oracle accepts either representative: ONNX's ArgMax/ArgMin inference treats them differently for rank-0 inputs)",
+        "value propagation: the sweep runs with it switched off; a separate slice (every operand a known constant; data-dependent operators weighted) and 45 % of the flows run with it ON (library default, reference, onnxruntime), judged for EQUAL types against fresh strict inference with the constants as initializers",
         "cross-operator flows: 2-4 calls of different operators in one process through which one Var flows (constant with a value / typed argument / result of the first call) in differently named slots; each call judged against fresh inference",
         "call histories: 2-4 calls of one operator in one process on shared Vars, differing in one facet (output count, one attribute, a constant's value, an optional input, an input shape), both orders; each call judged against fresh inference",
         "If / Loop / Scan / SequenceMap are generated with Identity bodies (over outer-scope values resp. body inputs)",
